@@ -36,42 +36,56 @@ Definition is_sign (c : N) : bool := (c =? 43) || (c =? 45).
     fraction digits, the exponent (sign, digits) if complete, and the length consumed. *)
 Record dec_lit := { dl_int : str; dl_frac : str; dl_exp : option (bool * str); dl_len : nat }.
 
-Definition scan_unsigned_decimal (s : str) : option dec_lit :=
-  let int_ds := take_while is_digit s in
-  let after_int := skipn (length int_ds) s in
-  let '(frac_ds, dot_len, after_frac) :=
-    match after_int with
-    | 46 :: r =>
-        let fr := take_while is_digit r in
-        match int_ds, fr with
-        | [], [] => ([], O, after_int)
-        | _, _ => (fr, S (length fr), skipn (length fr) r)
-        end
-    | _ => ([], O, after_int)
-    end in
-  match int_ds, frac_ds with
-  | [], [] => None
+(** the optional sign of an exponent: (negative, characters consumed, rest) *)
+Definition exp_sign (r : str) : bool * nat * str :=
+  match r with
+  | 43 :: r' => (false, 1%nat, r')
+  | 45 :: r' => (true, 1%nat, r')
+  | _ => (false, O, r)
+  end.
+
+(** the exponent after the 'e': sign, sign length, digits, what follows the digits *)
+Definition scan_exp (r : str) : bool * nat * str * str :=
+  let '(eneg, sign_len, r') := exp_sign r in
+  (eneg, sign_len, take_while is_digit r', drop_while is_digit r').
+
+Definition mk_lit (i f : str) (e : option (bool * str)) (n : nat) : dec_lit :=
+  {| dl_int := i; dl_frac := f; dl_exp := e; dl_len := n |}.
+
+(** after the mantissa (integer digits D1, fraction digits D2, [base] characters so far): an
+    exponent is consumed only if it is complete *)
+Definition scan_tail (D1 D2 : str) (base : nat) (R2 : str) : option dec_lit :=
+  match D1, D2 with
+  | [], [] => None                                   (* no digit at all: not a literal *)
   | _, _ =>
-      let base_len := (length int_ds + dot_len)%nat in
-      match after_frac with
+      match R2 with
       | c :: r =>
           if is_e c then
-            let '(eneg, sign_len, r') :=
-              match r with
-              | 43 :: r' => (false, 1%nat, r')
-              | 45 :: r' => (true, 1%nat, r')
-              | _ => (false, O, r)
-              end in
-            let eds := take_while is_digit r' in
+            let '(eneg, sl, eds, _) := scan_exp r in
             match eds with
-            | [] => Some {| dl_int := int_ds; dl_frac := frac_ds; dl_exp := None; dl_len := base_len |}
-            | _ => Some {| dl_int := int_ds; dl_frac := frac_ds; dl_exp := Some (eneg, eds);
-                           dl_len := (base_len + 1 + sign_len + length eds)%nat |}
+            | [] => Some (mk_lit D1 D2 None base)
+            | _ => Some (mk_lit D1 D2 (Some (eneg, eds)) (base + 1 + sl + length eds)%nat)
             end
-          else Some {| dl_int := int_ds; dl_frac := frac_ds; dl_exp := None; dl_len := base_len |}
-      | [] => Some {| dl_int := int_ds; dl_frac := frac_ds; dl_exp := None; dl_len := base_len |}
+          else Some (mk_lit D1 D2 None base)
+      | [] => Some (mk_lit D1 D2 None base)
       end
   end.
+
+(** after the integer digits D1: a dot is consumed when a digit stands on either side of it *)
+Definition scan_body (D1 R1 : str) : option dec_lit :=
+  match R1 with
+  | 46 :: r =>
+      match D1, take_while is_digit r with
+      | [], [] => scan_tail D1 [] (length D1 + 0) R1
+      | _, _ => scan_tail D1 (take_while is_digit r) (length D1 + S (length (take_while is_digit r))) (drop_while is_digit r)
+      end
+  | _ => scan_tail D1 [] (length D1 + 0) R1
+  end.
+
+(** js_op.rs::scan_unsigned_decimal (the Rust code counts digits and continues from that offset;
+    here: the digits taken and the rest dropped) *)
+Definition scan_unsigned_decimal (s : str) : option dec_lit :=
+  scan_body (take_while is_digit s) (drop_while is_digit s).
 
 (** f64::from_str on the scanned literal: correctly rounded. *)
 Definition dec_lit_value (l : dec_lit) : f64 :=
